@@ -4,7 +4,10 @@ set -u
 P=$1; shift
 cd /repo && { [ -z "$(git status --porcelain)" ] || { echo "/repo has uncommitted changes - commit them first"; exit 2; }; } && git apply "$P" || { echo "patch does not apply"; exit 2; }
 for id in "$@"; do
+  # the evidence file describes the unchanged tree: keep it out of the way while the changed tree is checked
+  [ -f /verif/evidence/$id.json ] && cp /verif/evidence/$id.json /root/scratch/evidence_keep_$id.json
   out=$(cd /verif && ./check $id 2>&1); rc=$?
+  [ -f /root/scratch/evidence_keep_$id.json ] && mv /root/scratch/evidence_keep_$id.json /verif/evidence/$id.json
   echo "== $id exit=$rc"; echo "$out" | grep "VIOLATION\|KNOWN" | cut -c1-400 | head -8
 done
 cd /repo && git checkout -- . && git status --short | head -3
